@@ -100,6 +100,19 @@ let parse_op (outs : pval array) (n : int) (s : string) : op =
 
 let hist_steps = ref 0
 
+(* Statement of Properties/C08.v step_refines evaluated on every step of every history (a test of the statement, not a
+   proof): on a tidy heap and a well-scoped operation the reference model, run on the abstraction of the heap, returns
+   the abstraction of the result and of the new heap; tidiness is preserved. *)
+let refine_checked = ref 0
+let refine_law sch (h : heap) (o : op) (h' : heap) (r : pval) : unit =
+  if tidyb sch h && well_scopedb sch h o then begin
+    incr refine_checked;
+    let a', r' = ref_step sch (abs sch h) o in
+    if r' <> abs_out r then failwith "law C08.step_refines fails (result)";
+    if a' <> abs sch h' then failwith "law C08.step_refines fails (state)";
+    if not (tidyb sch h') then failwith "law C08.tidy_preserved fails"
+  end
+
 let run_hist sch (h0 : heap) (outs0 : pval list) (root : nat option) (ops : string) : string =
   let opl = String.split_on_char ';' ops in
   let outs = Array.make (List.length opl + List.length outs0 + 1) PPanic in
@@ -112,6 +125,7 @@ let run_hist sch (h0 : heap) (outs0 : pval list) (root : nat option) (ops : stri
     (fun i s ->
       let o = parse_op outs !n s in
       let h', r = step sch !h o in
+      refine_law sch !h o h' r;
       (* rstop / mrstop: a Range whose callback returns false at once makes exactly one callback when anything is populated *)
       let stop = (match words s with [ ("rstop" | "mrstop"); _; n ] -> Some (int_of_string n) | _ -> None) in
       let capped k len = PScalar (VInt (z_of_dec (string_of_int (min k len)))) in
@@ -131,6 +145,77 @@ let run_hist sch (h0 : heap) (outs0 : pval list) (root : nat option) (ops : stri
     opl;
   Buffer.contents buf
 
+(* ---- HISTREF: the reference model against the common answer of dynamicpb and the struct-based reflection ----------
+     HISTREF <sid> <msg#> <op>;<op>;... <k>   = <norm>;<norm>;...      (k: index of the step the two implementations
+   disagree on, rendered "?", -1 if none). Normalised rendering of reflecteng_sess.go (render raw=false + " | " + state). *)
+let afuel (a : aheap) : nat = nat_of_int (List.length a + 2)
+let amsg_val sch a m (p : nat option) : string = Sexp.string_of_val (arender sch (afuel a) a m p)
+let aelem_tok sch a (t : ftype) (e : aelem) : string =
+  match e, t with
+  | AEScalar v, _ -> Sexp.string_of_val v
+  | AEMsg q, TMsg m -> amsg_val sch a m (Some q)
+  | AEMsg _, _ -> "?elem"
+let rec aout_tok sch (a : aheap) (elem : bool) (v : aout) : string =
+  match v with
+  | AOScalar s -> Sexp.string_of_val s
+  | AOMsg (m, p) -> if elem then amsg_val sch a m p else (match p with None -> "M0:" | Some _ -> "M1:") ^ amsg_val sch a m p
+  | AOList (t, r) -> (
+    match r, aread_list sch a r with
+    | RNil, _ -> "L0:()"
+    | _, Some l -> "L1:(" ^ String.concat " " (List.map (aelem_tok sch a t) l) ^ ")"
+    | _, None -> "L?dangling")
+  | AOMap (_, t, r) -> (
+    match r, aread_map sch a r with
+    | RNil, _ -> "P0:()"
+    | _, Some m ->
+      let kvs = List.stable_sort key_cmp m in
+      "P1:(" ^ String.concat " " (List.map (fun (k, e) -> Sexp.string_of_val k ^ " " ^ aelem_tok sch a t e) kvs) ^ ")"
+    | _, None -> "P?dangling")
+  | AOField None -> "F-"
+  | AOField (Some f) -> "F" ^ string_of_int (int_of_nat f)
+  | AOUnit -> "u"
+  | AOBool true -> "t"
+  | AOBool false -> "f"
+  | AOBytes l -> "y" ^ hex_of_bytes l
+  | AORange l ->
+    "R(" ^ String.concat " " (List.map (fun (i, x) -> string_of_int (int_of_nat i) ^ ":" ^ aout_tok sch a false x) l) ^ ")"
+  | AOMapRange l ->
+    let kvs = List.stable_sort key_cmp l in
+    "Q(" ^ String.concat " " (List.map (fun (k, x) -> Sexp.string_of_val k ^ " " ^ aout_tok sch a true x) kvs) ^ ")"
+  | AOInvalid -> "inv"
+  | AOPanic -> "panic"
+
+let run_ref sch (ops : string) (q : int) : string =
+  let opl = String.split_on_char ';' ops in
+  let outs = Array.make (List.length opl + 1) PPanic in
+  let n = ref 0 in
+  let a = ref [] in
+  let root = ref (O, None) in
+  let buf = Buffer.create 1024 in
+  List.iteri
+    (fun i s ->
+      let o = parse_op outs !n s in
+      let a', r = ref_step sch !a o in
+      let stop = (match words s with [ ("rstop" | "mrstop"); _; n ] -> Some (int_of_string n) | _ -> None) in
+      let capped k len = AOScalar (VInt (z_of_dec (string_of_int (min k len)))) in
+      let r = match stop, r with
+          | Some k, AORange l -> capped k (List.length l)
+          | Some k, AOMapRange l -> capped k (List.length l)
+          | _, other -> other in
+      a := a';
+      outs.(!n) <- to_operand r;
+      (if !n = 0 then match r with AOMsg (m, p) -> root := (m, p) | _ -> ());
+      incr n;
+      if i > 0 then Buffer.add_char buf ';';
+      if i = q then Buffer.add_char buf '?'
+      else begin
+        Buffer.add_string buf (aout_tok sch a' false r);
+        Buffer.add_string buf " | ";
+        Buffer.add_string buf (amsg_val sch a' (fst !root) (snd !root))
+      end)
+    opl;
+  Buffer.contents buf
+
 let reflect_eval (fn : string) (args : string list) : string =
   match fn, args with
   | "HIST", [ sid; _mid; ops ] -> run_hist (Ctx.schema sid) [] [] None ops
@@ -138,6 +223,9 @@ let reflect_eval (fn : string) (args : string list) : string =
     let sch = Ctx.schema sid and m = nat_of_string mid in
     let h, p = load sch (nat_of_int 64) [] m (Sexp.val_of_string v) in
     run_hist sch h [ PMsg (m, p) ] p ops
+  | "HISTREF", [ sid; _mid; ops; q ] -> run_ref (Ctx.schema sid) ops (int_of_string q)
   | _ -> raise Not_found
 
 let () = Driver.register reflect_eval
+
+let () = at_exit (fun () -> if Sys.getenv_opt "REFLECT_DEBUG" <> None then Printf.eprintf "reflect_eval: steps=%d refine_law_checked=%d\n" !hist_steps !refine_checked)
